@@ -229,6 +229,46 @@ impl Token {
         }
     }
 
+    /// C15 for a language drawn at random (`userlang.rs`): one language object tokenises a dozen texts one after the other,
+    /// as records and as queries; every clause of the property, the composed input coming from the case's own table.
+    fn user_lang_invariants(&self, cx: &mut Cx) {
+        let ul = crate::userlang::UserLang::random(&mut cx.rng);
+        let desc = ul.desc();
+        cx.count("languages drawn at random");
+        for k in 0..12 {
+            let input = match cx.rng.below(12) {
+                0 => ul.text(&mut cx.rng, 40),
+                1 => ul.word(&mut cx.rng, 2),
+                _ => ul.text(&mut cx.rng, 5),
+            };
+            let want = ul.composed(&cv(&input));
+            if want.len() != input.chars().count() {
+                cx.count("texts whose length changed under a random language's compositions");
+            }
+            for is_query in [false, true].iter() {
+                cx.ctx(format!("C15 user-defined language {} text {} query={} input={:?}", desc, k, is_query, input));
+                let tok = if *is_query { tokenize_query(&input, &ul.lang) } else { tokenization::tokenize_record(&input, &ul.lang) };
+                cx.eval();
+                cx.count("texts tokenised by a language drawn at random");
+                if !tok.words.is_empty() {
+                    cx.key(hparts(&["userlang", &desc.to_string(), &input, if *is_query { "q" } else { "r" }]));
+                }
+                if tok.source.iter().zip(tok.chars.iter()).any(|(a, b)| *a == '\0' && *b != '\0') {
+                    cx.count("texts with padding under a random language");
+                }
+                if let Some((clause, why)) = oracle::check_tok_composed(&want, &tok, *is_query) {
+                    cx.fail_sig(
+                        "tokenisation-invariant",
+                        format!("tokenisation-invariant:{}", clause),
+                        json!({"language": "defined by the case through the public Lang API", "tables": desc, "tokeniser": if *is_query { "query" } else { "record" }, "input": input, "clause": clause, "why": why,
+                               "source": s(&tok.source), "chars": s(&tok.chars), "words": tok.words.iter().map(|w| json!([w.slice.0, w.slice.1, w.stem, w.fin])).collect::<Vec<_>>()}),
+                    );
+                    return;
+                }
+            }
+        }
+    }
+
     fn variants_case(&self, cx: &mut Cx, lang: &'static str) {
         let mut acc = oracle::accents(lang);
         acc.extend(oracle::reduced_pairs(lang));
@@ -433,7 +473,7 @@ impl Prop for Token {
     }
     fn streams(&self) -> Vec<Stream> {
         match self.0 {
-            Which::Invariants => vec![Stream::new("exhaustive", NL * 15, NL * 15), Stream::new("random", 32000, 1600000), Stream::new("corpus", 64, 64), Stream::new("boundary", NL * 4, NL * 16), Stream::new("codepoints", 256, 256)],
+            Which::Invariants => vec![Stream::new("exhaustive", NL * 15, NL * 15), Stream::new("random", 32000, 1600000), Stream::new("corpus", 64, 64), Stream::new("boundary", NL * 4, NL * 16), Stream::new("codepoints", 256, 256), Stream::new("userlang", 8000, 400000)],
             Which::Variants => vec![Stream::new("stores", 32000, 1600000), Stream::new("userlang", 8000, 400000)],
         }
     }
@@ -622,6 +662,7 @@ impl Prop for Token {
                 }
             }
             (Which::Variants, "userlang") => self.user_lang_case(cx),
+            (Which::Invariants, "userlang") => self.user_lang_invariants(cx),
             (Which::Variants, _) => {
                 let lang = LANGS[(idx % NL) as usize];
                 self.variants_case(cx, lang);
